@@ -1,5 +1,5 @@
 use crate::Result;
-use bytes::{Bytes, BytesMut};
+use bytes::{Buf, Bytes, BytesMut};
 use internal::Finish;
 use sip_types::msg::{Line, MessageLine, PullParser};
 use sip_types::parse::{ParseCtx, Parser};
@@ -61,9 +61,16 @@ impl Decoder for StreamingDecoder {
     type Error = Error;
 
     fn decode(&mut self, src: &mut BytesMut) -> Result<Option<Self::Item>, Self::Error> {
-        if &src[..] == b"\r\n" {
-            src.clear();
-            return Ok(None);
+        if self.head_progress == 0 {
+            // skip CRLF keep-alives in front of a message
+            while src.starts_with(b"\r\n") {
+                src.advance(2);
+            }
+
+            // nothing left, or the first half of another CRLF
+            if src.is_empty() || &src[..] == b"\r" {
+                return Ok(None);
+            }
         }
 
         if src.len() > 4096 {
